@@ -1522,6 +1522,8 @@ class RTCSctpTransport(AsyncIOEventEmitter):
                 if channel.negotiated and channel.readyState == "connecting":
                     channel._setReadyState("open")
             asyncio.ensure_future(self._data_channel_flush())
+            if self._reconfig_queue:
+                asyncio.ensure_future(self._transmit_reconfig())
         elif state == self.State.CLOSED:
             self._t1_cancel()
             self._t2_cancel()
@@ -1823,11 +1825,16 @@ class RTCSctpTransport(AsyncIOEventEmitter):
                 # mark the datachannel as closed
                 if channel.id is not None:
                     self._data_channels.pop(channel.id)
+                    if self._association_state != self.State.ESTABLISHED:
+                        # the peer may hold the other end of the channel, reset
+                        # the stream once the association is established
+                        self._reconfig_queue.append(channel.id)
                 channel._setReadyState("closed")
 
     def _data_channel_closed(self, stream_id: int) -> None:
-        channel = self._data_channels.pop(stream_id)
-        channel._setReadyState("closed")
+        channel = self._data_channels.pop(stream_id, None)
+        if channel is not None:
+            channel._setReadyState("closed")
 
     async def _data_channel_flush(self) -> None:
         """
@@ -1875,6 +1882,11 @@ class RTCSctpTransport(AsyncIOEventEmitter):
             raise ValueError(f"Data channel with ID {channel.id} already registered")
 
         self._data_channels[channel.id] = channel
+        if self._association_state != self.State.ESTABLISHED:
+            # the stream ID is in use again, there is nothing left to reset
+            self._reconfig_queue = [
+                x for x in self._reconfig_queue if x != channel.id
+            ]
 
         if self._association_state == self.State.ESTABLISHED:
             channel._setReadyState("open")
@@ -1887,6 +1899,9 @@ class RTCSctpTransport(AsyncIOEventEmitter):
                 )
             else:
                 self._data_channels[channel.id] = channel
+                self._reconfig_queue = [
+                    x for x in self._reconfig_queue if x != channel.id
+                ]
 
         channel_type = DATA_CHANNEL_RELIABLE
         priority = 0
